@@ -10,6 +10,7 @@ import RbV.Thm.GenSrcKmpLps
 import RbV.Thm.GenSrcShiftAndMasks
 import RbV.Thm.GenSrcHorspoolNew
 import RbV.Thm.GenSrcShiftAndNext
+import RbV.Thm.GenSrcKmpNext
 /-!
 # C08 — exact matchers return exactly all occurrences
 
@@ -268,5 +269,24 @@ theorem shiftAnd_new_source_long_panics (p : List Nat) (hm : 64 < p.length) :
 
 example : GenSrcShiftAndNext.findAllSrc [1, 2, 1] [1, 2, 1, 2, 1] = Rs.Res.ok [0, 2] := by
   rw [shiftAnd_source_exact _ _ (by decide) (by decide) (by decide) (by decide) (by decide)]; decide
+
+/-- **KMP end to end on the translated source text**: `KMP::new(p)` (which calls the translated `lps`), `.find_all(t)`
+and `Matches::next` (which calls the translated `delta`) until `None`, as written in `kmp.rs`, never panic (`1 + i - m`
+never underflows: the state `m` is only reached after `m` symbols) and list exactly the occurrences of `p` in `t`, for
+every non-empty pattern and every byte text. -/
+theorem kmp_source_exact (p t : List Nat) (hp : 0 < p.length) (h64 : p.length < 2 ^ 64) (hb : ∀ c ∈ t, c < 256)
+    (ht : t.length < 2 ^ 64) : GenSrcKmpNext.findAllSrc p t = Rs.Res.ok (occurrences p t) := by
+  rw [GenSrcKmpNext.findAllSrc_eq_model p t hp h64 hb ht, kmp_exact p t hp]
+
+/-- the loop alone: `next` driven until `None` from any state that satisfies the automaton invariant = the scanner of
+the mirror model from that state -/
+theorem kmp_next_source_eq_model (p : List Nat) (hp : 0 < p.length) (h64 : p.length < 2 ^ 64) (fuel : Nat)
+    (rest pre : List Nat) (q : Nat) (hmax : Kmp.MaxPS p pre q) (hb : ∀ c ∈ rest, c < 256)
+    (hi : pre.length + rest.length < 2 ^ 64) (hf : rest.length < fuel) :
+    Rs.drain (GenSrcKmpNext.nextS p) fuel (q, (rest, pre.length))
+      = Rs.Res.ok (Scan.scan (Kmp.delta p (Kmp.lps p)) (fun q => q == p.length) p.length rest pre.length q) :=
+  GenSrcKmpNext.drain_eq_scan p hp h64 fuel rest pre q hmax hb hi hf
+
+example : GenSrcKmpNext.findAllSrc [1, 2, 1] [1, 2, 1, 2, 1] = Rs.Res.ok [0, 2] := by decide
 
 end RbV.Thm.C08
